@@ -252,6 +252,24 @@ Theorem C08_plain_block_unrolls_partial :
 Proof. exact flat_block_unrolls. Qed.
 Print Assumptions C08_plain_block_unrolls_partial.
 
+(* the comment idiom: a block without labels or counter whose count is not positive disappears in one pass, whatever
+   its body is (any lines, nested blocks included: body_run finds the closing ROF) *)
+Theorem C08_zero_block_unrolls_partial :
+  forall cfg pre forw es body cls rofw skip rest syms v d_at content',
+    Forall pline_ok pre ->
+    t_typ forw = tokText -> tok_is_pseudo forw = true -> lower_is (t_val forw) "for" = true -> Forall plain_tok es ->
+    front_symbols pre = Some syms ->
+    expand_and_evaluate (filter noncomment es) (with_constants cfg syms) = Some (EOk v) -> (v <= 0)%Z ->
+    Forall bline_ok body -> body_run body 0 None [] = Some (O, d_at, content') ->
+    Forall (fun vc => is_label (fst vc)) cls ->
+    t_typ rofw = tokText -> tok_is_pseudo rofw = true -> lower_is (t_val rofw) "for" = false -> lower_is (t_val rofw) "rof" = true ->
+    Forall plain_tok skip -> Forall nonterm rest ->
+    let out := flat_map pl_out pre ++ rest ++ [tEOF] in
+    unrolls cfg 0 out out ->
+    unrolls cfg 1 (flat_map pl_toks pre ++ (forw :: es ++ [nlt]) ++ flat_map bl_toks body ++ lbl_seg cls ++ rofw :: skip ++ (nlt :: rest ++ [tEOF])) out.
+Proof. exact zero_block_unrolls. Qed.
+Print Assumptions C08_zero_block_unrolls_partial.
+
 (* missing: that the token-level relation `unrolls` holds between the rendering of an abstract program and the
    rendering of its unrolling (Render.unroll) for every program - each instance is a finite derivation like the
    example's - and the composition with the reference meaning.  These are decided on every run by the correspondence:
